@@ -1,4 +1,7 @@
 pub mod c01;
+pub mod c02;
+pub mod c04;
+pub mod simcommon;
 pub mod c10;
 pub mod c11;
 pub mod c17;
@@ -10,6 +13,8 @@ use serde_json::Value;
 pub fn run(ctx: &Ctx, id: &str) -> bool {
     match id {
         "C01" => c01::run(ctx),
+        "C02" => c02::run(ctx),
+        "C04" => c04::run(ctx),
         "C10" => c10::run(ctx),
         "C11" => c11::run(ctx),
         "C17" => c17::run(ctx),
@@ -22,6 +27,8 @@ pub fn run(ctx: &Ctx, id: &str) -> bool {
 pub fn replay(ctx: &Ctx, id: &str, part: &str, case: &Value) -> bool {
     match id {
         "C01" => c01::replay(ctx, part, case),
+        "C02" => c02::replay(ctx, part, case),
+        "C04" => c04::replay(ctx, part, case),
         "C10" => c10::replay(ctx, part, case),
         "C11" => c11::replay(ctx, part, case),
         "C17" => c17::replay(ctx, part, case),
